@@ -111,6 +111,17 @@ class Engine:
         ob.trace = list(st.trace)
         if verdict == 'sat':
             ob.model = self.extract_model(st, q, model)
+        elif verdict == 'unknown' and backend != 'budget' and not smt.has_quant(goal):
+            # no verdict and no model: a model of the quantifier-free facts alone is kept as a CANDIDATE entry state.
+            # It decides nothing here; check.py replays it on the real code and only a failure observed there counts.
+            try:
+                s_ = z3.Solver()
+                s_.set('timeout', 3000)
+                s_.add(*[a for a in q if not smt.has_quant(a)])
+                if s_.check() == z3.sat:
+                    ob.model = self.extract_model(st, [a for a in q if not smt.has_quant(a)], s_.model())
+            except Exception:
+                ob.model = None
         self.obligations.append(ob)
         # a proved goal is implied by the path condition; it is added only in a shape that helps later
         # queries (quantifier-free, or a plain universal): a quantifier under if/or/implies slows them down
